@@ -105,6 +105,12 @@ def generate(rng, index):
             m.defs.append(f"s{m.idx}_0")
             units.append(m)
         containers.append(cont)
+    # Assembler semantics: `.weak s` makes the undefined symbol weak for the whole object, so a unit
+    # that refers to a symbol both weakly and strongly refers to it weakly (found as a false alarm
+    # of the thorough tier: the model used to count the strong reference).
+    for u in units:
+        weak_syms = {s for (s, wk) in u.refs if wk}
+        u.refs = [(s, wk or s in weak_syms) for (s, wk) in u.refs]
     return {"units": units, "containers": containers, "dups": dups, "big": big,
             "big_unit": big_unit.idx if big_unit else None}
 
